@@ -495,7 +495,7 @@ func (ex *Exec) reportEvent(label, msg string) {
 		r, m = ex.checkSat(nil)
 	}
 	if r == smt.Sat {
-		ex.addViolation(Violation{Label: label, Kind: label, Msg: msg, Model: ex.modelEntries(m), Choices: ex.choicesSoFar(), Extra: ex.notes()})
+		ex.addViolation(Violation{Label: label, Kind: label, Msg: msg, Model: ex.modelEntries(m), Choices: ex.choicesSoFar(), VChoices: append([]int(nil), ex.vchoices...), Extra: ex.notes()})
 	} else if r == smt.Unknown {
 		ex.inconclusive(label + " on a path of unknown feasibility")
 	}
